@@ -6,6 +6,7 @@
 // `_symlink(dst_path, src.alt())` - at the destination path computed for it, with the SOURCE ENTRY's stored target - and every other
 // entry goes through the clone branch.  Callees are opaque requests (as in unit stdfs_os).
 //@ prelude base errors iter path_abs
+// ASSUMED[requests]: the callees of Memfs::_copy (_abs, _entries, _clone_entry, _mkdir_m, _add, _clone_file, _symlink) are opaque requests here; _symlink records its two arguments and no other callee creates a link (their contracts are proved in unit memfs_ops)
 
 #[verifier::external_body]
 pub struct MemfsGuard { x: u8 }
